@@ -46,6 +46,16 @@ def handleApi : Handler := fun st op args =>
         match p.apply st.basis m with
         | .ok q => "ok " ++ fmtPos q
         | .error e => fmtErr e)
+  | "overclone", [ptok, m1, _m2] =>
+    some (st, withPos ptok fun p =>
+      match parseMove m1 with
+      | none => "bad-move"
+      | some a =>
+        match p.apply st.basis a with
+        | .error e => fmtErr e
+        | .ok r =>
+          let d := r.winDetails
+          fmtOutcome d.over d.winner (d.reason == .road) d.whiteFlats d.blackFlats ++ " " ++ accStr r)
   | "overstack", [ptok, m1, m2, _m3] =>
     some (st, withPos ptok fun p =>
       match parseMove m1, parseMove m2 with
